@@ -1,2 +1,76 @@
+"""C10 end-to-end: typed expression trees as Mamba SOURCE TEXT (every operand parenthesised, so the grouping of the tree is what the
+Mamba parser must build) through the whole pipeline; the right-hand side of the emitted assignment is parsed by CPython and must be
+the same tree (spec/PyExprJudge.tla, same clause as for the printer alone)."""
+import ast
+import json
+import subprocess
+import sys
+import os
+
+import vlib
+
+MAMBA_OP = {"%": "mod", "**": "^", "==": "="}
+sys.path.insert(0, vlib.PYDIR)
+
+
+def mamba(t):
+    k = t["k"]
+    if k in ("id", "int"):
+        return t["v"]
+    if k == "bin":
+        return "%s %s %s" % (operand(t["l"]), MAMBA_OP.get(t["op"], t["op"]), operand(t["r"]))
+    if k == "un":
+        return ("not %s" if t["op"] == "not" else "-%s") % operand(t["e"])
+    if k == "tern":
+        return "if %s then %s else %s" % (operand(t["c"]), operand(t["t"]), operand(t["e"]))
+    raise ValueError(k)
+
+
+def operand(t):
+    s = mamba(t)
+    return s if t["k"] in ("id", "int") else "(" + s + ")"
+
+
 def run(chk, tier, vh):
-    pass
+    import pyexpr
+    r = vlib.tlc("MC_PyExpr", "MC_PyExpr.cfg", constants={"Family": '"e2e"'}, xss="1g")
+    chk.add_tlc(r)
+    cases = r.records
+    if tier == "quick":
+        cases = cases[::2]
+    recs = []
+    for i, c in enumerate(cases):
+        c["id"] = i
+        c["src"] = "def a: Int := 7\ndef t: Bool := True\ndef r: %s := %s\n" % (c["ty"], mamba(c["tree"]))
+        recs.append({"id": i, "src": c["src"], "annotate": [False]})
+    out = {o["id"]: o["runs"][0] for o in vlib.run_vh(vh, ["transpile"], records=recs)}
+    obs, rejected = [], 0
+    for c in cases:
+        run_ = out[c["id"]]
+        if not run_["ok"]:
+            rejected += 1
+            continue
+        try:
+            tree = ast.parse(run_["out"][0])
+            rhs = [st.value for st in tree.body if isinstance(st, (ast.Assign, ast.AnnAssign)) and getattr(st, "targets", [getattr(st, "target", None)])[0].id == "r"][0]
+            back = pyexpr.tree(rhs)
+            text = ast.unparse(rhs)
+        except Exception as e:          # output does not parse / has no such assignment
+            back, text = {"k": "error", "why": str(e)}, run_["out"][0]
+        obs.append({"id": c["id"], "tree": c["tree"], "back": back, "toks": [], "ok": False, "text": text})
+    verdicts, states, trans = vlib.judge("PyExprJudge", "PyExprJudge.cfg", obs, chunk=50000)
+    chk.states += states
+    chk.transitions += trans
+    by = {c["id"]: c for c in cases}
+    ob = {o["id"]: o for o in obs}
+    for v in verdicts:
+        c = by[v["id"]]
+        chk.evaluations += 1
+        chk.traces += 1
+        if v["v"] == "ok":
+            chk.nontriv("e2e:" + c["src"])
+            continue
+        chk.violation({"mamba_source": c["src"], "tree": c["tree"], "emitted_expression": ob[v["id"]]["text"], "python_parsed_it_as": ob[v["id"]]["back"], "clause": "end-to-end:" + v["v"],
+                       "what": "Mamba %r is emitted as %r, another tree" % (mamba(c["tree"]), ob[v["id"]]["text"][:80])}, key=c["src"])
+    chk.extra["end_to_end"] = {"trees": len(cases), "rejected_by_the_checker": rejected, "compared": len(obs)}
+    chk.sample({"mamba_source": cases[-1]["src"], "emitted_expression": ob.get(cases[-1]["id"], {}).get("text")})
